@@ -22,6 +22,8 @@ func main() {
 		os.Exit(cmdVerify(os.Args[2:]))
 	case "list":
 		os.Exit(cmdList(os.Args[2:]))
+	case "sweep":
+		os.Exit(cmdSweep(os.Args[2:]))
 	case "check":
 		os.Exit(cmdCheck(os.Args[2:]))
 	default:
@@ -382,4 +384,89 @@ func printReport(rep *Report, verbose bool) {
 	}
 	fmt.Printf("SUMMARY property=%s functions=%d obligations=%d discharged=%d failed=%d path_instances=%d solver_ms=%d wall_ms=%d engines=%v\n",
 		rep.Property, len(rep.Functions), rep.Obligations, rep.Discharged, rep.Failed, rep.Instances, rep.SolverMs, rep.WallMs, rep.ByEngine)
+}
+
+// cmdSweep: zero-annotation safety sweep. Every function of the selected package that has no
+// contract is verified with an empty contract generating only the chosen kinds of automatic safety
+// obligations. Failures are CANDIDATES to triage by hand (inputs are unconstrained), never reported
+// as violations by any registered check.
+func cmdSweep(args []string) int {
+	fs := flag.NewFlagSet("sweep", flag.ExitOnError)
+	repo := fs.String("repo", "/repo", "repository working tree")
+	pkgSub := fs.String("pkg", "github.com/graphql-go/graphql::", "only function keys with this prefix")
+	only := fs.String("func", "", "only functions whose key contains this")
+	kinds := fs.String("kinds", "typeassert|nilcall", "safety kinds")
+	fs.Parse(args)
+	eng, err := LoadEngine(*repo, loadPatterns)
+	if err != nil {
+		fmt.Fprintln(os.Stderr, "load:", err)
+		return 2
+	}
+	opts := VerifyOpts{LiveTimeoutMs: 1000, RaceTimeoutS: 5, PathCap: 1500, InlineDepth: 1}
+	defer os.RemoveAll(scratchDir())
+	var keys []string
+	for k := range eng.fnByKey {
+		if !strings.HasPrefix(k, *pkgSub) || (*only != "" && !strings.Contains(k, *only)) {
+			continue
+		}
+		if fc := eng.contracts.Funcs[k]; fc != nil {
+			continue
+		}
+		if fn := eng.fnByKey[k]; fn == nil || len(fn.Blocks) == 0 || strings.HasSuffix(eng.prog.Fset.Position(fn.Pos()).Filename, "_test.go") {
+			continue
+		}
+		keys = append(keys, k)
+	}
+	sort.Strings(keys)
+	type res struct {
+		key string
+		r   *FuncResult
+	}
+	results := make([]res, len(keys))
+	var wg sync.WaitGroup
+	sem := make(chan struct{}, 14)
+	for i, k := range keys {
+		wg.Add(1)
+		go func(i int, k string) {
+			defer wg.Done()
+			sem <- struct{}{}
+			defer func() { <-sem }()
+			parts := strings.SplitN(k, "::", 2)
+			fc := &FuncContract{Pkg: parts[0], Key: parts[1], Safety: true, Bound: true, Loops: map[int]*LoopContract{}, Opts: map[string]string{"safety.only": *kinds, "pathcap": "1500"}}
+			done := make(chan *FuncResult, 1)
+			go func() {
+				defer func() {
+					if p := recover(); p != nil {
+						done <- &FuncResult{Error: fmt.Sprint(p)}
+					}
+				}()
+				done <- eng.VerifyFunction(eng.fnByKey[k], fc, opts)
+			}()
+			select {
+			case r := <-done:
+				results[i] = res{k, r}
+			case <-time.After(60 * time.Second):
+				results[i] = res{k, &FuncResult{Error: "timeout"}}
+			}
+		}(i, k)
+	}
+	wg.Wait()
+	nf := 0
+	for _, r := range results {
+		if r.r == nil {
+			continue
+		}
+		if r.r.Error != "" {
+			fmt.Printf("SKIP %s: %.100s\n", r.key, r.r.Error)
+			continue
+		}
+		for _, o := range r.r.Obligs {
+			if len(o.Failures) > 0 && strings.HasPrefix(o.Kind, "safety.") {
+				nf++
+				fmt.Printf("CANDIDATE %s %s %s\n", o.Name, o.Kind, o.Pos)
+			}
+		}
+	}
+	fmt.Printf("sweep: %d functions, %d candidates\n", len(keys), nf)
+	return 0
 }
